@@ -506,6 +506,13 @@ def _binop_inf(a, b, op):
 
 
 # ---------------------------------------------------------------------------------------------
+class TInt(int):
+    """concrete-replay int input: a distinct object per input even for equal values, so that
+    identity obligations ("the very object supplied") stay meaningful when the model says 0"""
+
+    __slots__ = ()
+
+
 class XF:
     """exact stand-in for a finite python float in concrete replays: arithmetic over Q, but the
     *type behaviour* of float (// and % stay XF, int + XF -> XF, XF(x) converts like float(x))"""
@@ -657,7 +664,7 @@ class Ctx:
                 if isinstance(v, float) and math.isinf(v):
                     return v
                 return XF(v) if self.exact else float(v)
-            return int(v)
+            return TInt(int(v))
         with self._lock:
             if name in self.inputs:
                 raise EngineError("duplicate input %s" % name)
